@@ -14,6 +14,9 @@ var e19 = []string{"(*SoftCollection).Add", "(*SoftCollection).Remove", "(*SoftC
 	"(*SoftCollection).Len", "(*SoftCollection).AddAttr", "(*SoftCollection).AddRel", "(*SoftCollection).SetType", "(*SoftCollection).GetType"}
 
 func checkC19(p *Prog, r *Report) {
+	r.rule("C19.type-validate (imported from C14.validate): Type.AddAttr / AddRel, through which the collection's type grows, store a definition only behind the non-empty-name, valid-kind / non-empty-target tests and a complete scan that compares the existing NAMES with the new name")
+	nTV := r.importRules(func(r2 *Report) { checkC14(p, r2) }, "C19.type-validate", "C14.validate")
+	r.floor("imported type validation obligations", nTV, 4)
 	r.rule("C19.set-replaces (imported from C18): no reflect setter on the Wrapper's Set path writes through a pointer held by a struct field; the snapshot SoftCollection.Add takes of a wrapped resource holds the struct's own pointers to nullable scalars, which stay untouched only because Set replaces them")
 	nSR := r.importRules(func(r2 *Report) { checkSetReplaces(p, r2) }, "C19.set-replaces", "C18.set-replaces")
 	r.floor("imported set-replaces obligations", nSR, 2)
